@@ -252,8 +252,15 @@ Record state := {
 }.
 Definition init : state := {| st_accounts := []; st_vals := [] |}.
 
-(* what the beacon node answers to a validators request *)
-Inductive vout := VErr | VOk (l : list val).
+(* how the beacon node reacts to the validators requests of one refresh: it fails every request,
+   it answers every request from l, or it fails every request that names the public key pk
+   (a request that times out or is rejected because of what it contains) and answers the others
+   from l *)
+Inductive vout := VErr | VOk (l : list val) | VFailOn (pk : N) (l : list val).
+
+(* the validators the node may draw its answers from *)
+Definition vout_vals (vo : vout) : list val :=
+  match vo with VErr => [] | VOk l => l | VFailOn _ l => l end.
 
 Definition mem_N (x : N) (l : list N) : bool := memb N.eqb x l.
 Definition mem_str (x : string) (l : list string) : bool := memb String.eqb x l.
@@ -291,11 +298,20 @@ Section Run.
   Definition node_answer (l : list val) (pubkeys : list N) : list val :=
     if isnil pubkeys then l else filter (fun v => mem_N (v_pk v) pubkeys) l.
 
-  (* RefreshValidatorsFromBeaconNode: an error or an empty answer leaves the maps alone *)
-  Definition refresh_validators (old : list val) (pubkeys : list N) (vo : vout) : list val :=
+  (* the node's reply to ONE request for pubkeys: None = the request failed *)
+  Definition node_reply (vo : vout) (pubkeys : list N) : option (list val) :=
     match vo with
-    | VErr => old
-    | VOk l => let got := node_answer l pubkeys in if isnil got then old else got
+    | VErr => None
+    | VOk l => Some (node_answer l pubkeys)
+    | VFailOn pk l => if mem_N pk pubkeys then None else Some (node_answer l pubkeys)
+    end.
+
+  (* RefreshValidatorsFromBeaconNode: ONE request for all the public keys; an error or an empty
+     answer leaves the maps alone, anything else replaces them *)
+  Definition refresh_validators (old : list val) (pubkeys : list N) (vo : vout) : list val :=
+    match node_reply vo pubkeys with
+    | None => old
+    | Some got => if isnil got then old else got
     end.
 
   Definition refresh (s : state) (offered : list N) (vo : vout) : state :=
@@ -349,10 +365,14 @@ Section Run.
     end.
 
   (* the first operation is the constructor: the wallet manager's New fails when its first
-     validator refresh fails; dirk's New only logs that *)
-  Definition run (ops : list op) : list out :=
+     validator refresh (for the accounts it has just admitted) fails; dirk's New only logs that *)
+  Definition ctor_fails (ops : list op) : bool :=
     match c_mgr cfg, ops with
-    | Wallet, Refresh _ VErr :: rest => OCtorErr :: map (fun _ => ODead) rest
-    | _, _ => run_from init ops
+    | Wallet, Refresh offered vo :: _ =>
+        match node_reply vo (refresh_accounts [] offered) with None => true | Some _ => false end
+    | _, _ => false
     end.
+
+  Definition run (ops : list op) : list out :=
+    if ctor_fails ops then OCtorErr :: map (fun _ => ODead) (tl ops) else run_from init ops.
 End Run.
